@@ -49,6 +49,10 @@ func ServeConn(ctx context.Context, cn net.Conn, handler Handler) error {
 	}
 
 	err := c.serve()
+	// serve has cancelled every active request. Wait for their handlers to
+	// return before tearing the session down, so that Stop does not run
+	// concurrently with (or before the end of) an in-flight call.
+	c.handlers.Wait()
 	return handler.Stop(err)
 }
 
@@ -62,6 +66,8 @@ type conn struct {
 	once   sync.Once
 	closed chan struct{}
 	err    error // terminal error for the conn
+
+	handlers sync.WaitGroup // handler goroutines still running
 }
 
 // activeRequest includes information about the active request.
@@ -158,7 +164,9 @@ func (c *conn) serve() error {
 					cancel:  cancel,
 				}
 
+				c.handlers.Add(1)
 				go func(ctx context.Context, req *Fcall) {
+					defer c.handlers.Done()
 					var resp *Fcall
 					msg, err := c.handler.Handle(ctx, req.Message)
 					if err != nil {
